@@ -220,23 +220,43 @@ func (n *Node) setupExec(ctx context.Context) (executor.Executor, error) {
 		stdout = io.MultiWriter(n.logWriter, n.stdoutWriter)
 	}
 
+	// Without a file of its own, stderr goes where stdout goes, except into
+	// the pipe that captures the output variable: that one holds the
+	// standard output only.
+	stderr := stdout
 	if n.data.Step.Output != "" {
 		var err error
 		if n.outputReader, n.outputWriter, err = os.Pipe(); err != nil {
 			return nil, err
 		}
-		stdout = io.MultiWriter(stdout, n.outputWriter)
+		// stdout and stderr are now distinct writers that are written
+		// concurrently, so the destination they share has to be guarded.
+		shared := &lockedWriter{w: stdout}
+		stderr = shared
+		stdout = io.MultiWriter(shared, n.outputWriter)
 	}
 
 	cmd.SetStdout(stdout)
 	if n.stderrWriter != nil {
 		cmd.SetStderr(n.stderrWriter)
 	} else {
-		cmd.SetStderr(stdout)
+		cmd.SetStderr(stderr)
 	}
 
 	n.executing = true
 	return cmd, nil
+}
+
+// lockedWriter serializes the writes of two writers sharing a destination.
+type lockedWriter struct {
+	mu sync.Mutex
+	w  io.Writer
+}
+
+func (l *lockedWriter) Write(p []byte) (int, error) {
+	l.mu.Lock()
+	defer l.mu.Unlock()
+	return l.w.Write(p)
 }
 
 func (n *Node) getRetryCount() int {
